@@ -227,7 +227,9 @@ namespace xsimd
 
 #undef MAKE_BINARY_OP
 
-        constexpr batch_constant<T, A, (T)-Values...> operator-() const
+        // negation modulo 2^bits: this return type is instantiated with the class, and -Values is not a
+        // constant expression for the most negative value
+        constexpr batch_constant<T, A, (T)(typename std::make_unsigned<T>::type(0) - static_cast<typename std::make_unsigned<T>::type>(Values))...> operator-() const
         {
             return {};
         }
